@@ -256,6 +256,39 @@ func ExpectedTargets(root *m.BodyM, body *hclsyntax.Body) TargetModel {
 					ty, _ := consType(as.Cons)
 					tm.Expected = append(tm.Expected, ExpTarget{Kind: "attr:asExprType", Addr: addr, Scope: as.Addr.Scope, Type: ty.GoString(),
 						Start: a.SrcRange.Start.Byte, End: a.SrcRange.End.Byte, DefStart: a.NameRange.Start.Byte, DefEnd: a.NameRange.End.Byte})
+				} else if as.Cons.K == "oneof" {
+					// one-of: the members that admit the written plain literal decide; determined when
+					// they all give the same type and every other member is of a kind that declares no
+					// targets (keyword, literal value, type declaration), wherever it stands in the list
+					var tys []cty.Type
+					others := false
+					for _, mc := range as.Cons.Elems {
+						if literalTokens(mc, a.Expr) != nil {
+							if ty, ok := consType(mc); ok {
+								tys = append(tys, ty)
+							}
+							continue
+						}
+						switch mc.K {
+						case "keyword", "litval", "typedecl":
+							// members that declare no targets at all
+						default:
+							// another member that may yield a target of its own type for a value it
+							// does not really admit: which member wins is not decided
+							others = true
+						}
+					}
+					same := len(tys) > 0 && !others
+					for _, ty := range tys {
+						if !ty.Equals(tys[0]) {
+							same = false
+						}
+					}
+					if same {
+						tm.Classes["attribute-as-expr-type(one-of)"] = true
+						tm.Expected = append(tm.Expected, ExpTarget{Kind: "attr:asExprType(one-of)", Addr: addr, Scope: as.Addr.Scope, Type: tys[0].GoString(),
+							Start: a.SrcRange.Start.Byte, End: a.SrcRange.End.Byte, DefStart: a.NameRange.Start.Byte, DefEnd: a.NameRange.End.Byte})
+					}
 				}
 			}
 		}
